@@ -415,6 +415,8 @@ class Safe:
         if not stmts:
             if tail is None:
                 return []
+            if tail[0] == "for":
+                return self.stmts([("expr", tail)], None, env, expect)
             return self.ex(tail, env, expect)
         s, rest = stmts[0], stmts[1:]
         if s[0] == "let":
@@ -467,7 +469,12 @@ class Safe:
             k0 = e[0]
             if k0 == "macro":
                 return self.stmts(rest, tail, env, expect)
-            obs = self.for_obs(e, env) if k0 == "for" else self.ex(e, env)
+            if k0 == "for":
+                obs = self.for_obs(e, env)
+            elif k0 == "mcall" and self.tr.vec_stmt(e, env) is not None:
+                obs = []            # `v.append(vec![literal; n].as_mut())`: nothing in it can trap
+            else:
+                obs = self.ex(e, env)
             if k0 in ("return", "continue"):
                 return obs
             acc = set()
@@ -572,6 +579,14 @@ class Safe:
                 env2[pat[1]] = NAT()
                 var = lname(pat[1])
             body_obs = self.blockv(body, env2)
+            if acc and any((self.tr.self_ty if v == "self" else env[v])[0] in ("msg", "list") for v in acc):
+                # the loop works on a vector: its obligations (indices) are about the state the iteration really starts in -
+                # the fold of the iterations before it - not about an arbitrary state
+                count, lam, st, v2, lo2 = self.tr.for_range_parts(e, dict(env), acc)
+                kv = (var or "it") + "_k"
+                lam1 = lam.replace("\n", " ")
+                bind = f"let {v2} := {lo2} + {kv}; " if v2 else ""
+                return obs + [f"(∀ ({kv} : Nat), {kv} < {count} → (let {st} := (List.range {kv}).foldl {lam1} {st}; {bind}{o}))" for o in body_obs]
             if var:
                 body_obs = [f"(∀ ({var} : Nat), {lo} ≤ {var} → {var} {'≤' if inner[3] else '<'} {hi} → {o})" for o in body_obs]
         else:
